@@ -1,6 +1,6 @@
 /-
 Decidable (Bool) versions of the session invariants. They are evaluated by the driver
-on every state of every T2 history (`pahomodel session-inv`), which validates the
+on every state of every T2 history (`pm_session session-inv`), which validates the
 invariants on the executions the correspondence explores before/independently of their
 proofs, and they are the predicates the property theorems speak about.
 -/
